@@ -8,7 +8,7 @@ use serde::{Deserialize, Serialize};
 use serde_json::json;
 use std::time::Duration;
 
-pub const RULE: &str = "the spin options and their ranges are read from the engine's own 'uci' answer (name, min, max - not hard-coded). A session = 2-12 steps over {setoption <spin option> value v with v in {min, min+1, default, max-1, max, interior values}, isready, ucinewgame, position <generated game>, go depth 2-4 (also with clocks after Move Overhead was set), go movetime 1100-1400 (a search longer than a second)} in any order, before and between searches, then quit. Oracle on the shipped binary: every isready is answered by readyok; every go by exactly one bestmove that is legal in the position (reference model); nothing that looks like the panic hook's output; after quit the process exits with status 0. A 'long_sessions' part sets Hash (mostly to its smallest advertised value) and runs 256-300 shallow searches in a row. In-process twin (checked build): tt.resize(v) for boundary and interior sizes followed by a search. A 'smallest_hash_time_limited' part sets Hash to its smallest value and runs six searches without depth limit (go movetime 80-220, or clocks) on middlegame positions. Non-trivial = session that searches after setting Hash to a boundary value or after two different Hash values; distinct by session.";
+pub const RULE: &str = "the spin options and their ranges are read from the engine's own 'uci' answer (name, min, max - not hard-coded). A session = 2-12 steps over {setoption <spin option> value v with v in {min, min+1, default, max-1, max, interior values}, isready, ucinewgame, position <generated game>, go depth 2-4 (also with clocks after Move Overhead was set), go movetime 1100-1400 (a search longer than a second)} in any order, before and between searches, then quit. Oracle on the shipped binary: every isready is answered by readyok; every go by exactly one bestmove that is legal in the position (reference model); nothing that looks like the panic hook's output; after quit the process exits with status 0. A 'long_sessions' part sets Hash (mostly to its smallest advertised value) and runs 256-300 shallow searches in a row. In-process twin (checked build): tt.resize(v) for boundary and interior sizes followed by a search. An 'overhead_with_any_clock' part sets up the time control in-process for a grid of (advertised Move Overhead value, own clock incl. values below the overhead and a missing clock, other clock, increment, movestogo, side): no panic. A 'smallest_hash_time_limited' part sets Hash to its smallest value and runs six searches without depth limit (go movetime 80-220, or clocks) on middlegame positions. Non-trivial = session that searches after setting Hash to a boundary value or after two different Hash values; distinct by session.";
 
 #[derive(Serialize, Deserialize, Clone, Debug, PartialEq)]
 pub enum Step {
@@ -270,6 +270,56 @@ pub fn run(run: &mut Run) -> &'static str {
         Ok(_) => infra("the engine advertises no spin option"),
         Err(e) => infra(&format!("cannot read the engine's options: {e}")),
     };
+    // Move Overhead: every advertised value together with every kind of clock a `go` can carry (also
+    // clocks far below the overhead, missing clocks, movestogo, increments): setting up the time
+    // control must not crash. Exhaustive over a grid of boundary values.
+    if let Some(ov) = spins.iter().find(|s| s.name == "Move Overhead") {
+        use crate::engine::options::EngineOptions;
+        use crate::engine::search::time_control::TimeStrategy;
+        use crate::engine::search::{Clocks, TimeControl};
+        let span = ov.max - ov.min;
+        let mut ovs: Vec<u64> = vec![ov.min, ov.min + 1.min(span), ov.min + 2.min(span), ov.min + 10.min(span), ov.min + 50.min(span), ov.min + 100.min(span), ov.min + 299.min(span), ov.min + 300.min(span), ov.min + 500.min(span), ov.max - 1.min(span), ov.max, ov.default.clamp(ov.min, ov.max)];
+        ovs.sort_unstable();
+        ovs.dedup();
+        let clocks: Vec<Option<u64>> = vec![None, Some(0), Some(1), Some(2), Some(9), Some(10), Some(11), Some(49), Some(99), Some(100), Some(299), Some(300), Some(301), Some(499), Some(999), Some(1000), Some(1001), Some(60_000)];
+        let incs: Vec<Option<u64>> = vec![None, Some(0), Some(1), Some(100)];
+        let mtgs: Vec<Option<u32>> = vec![None, Some(1), Some(2), Some(10), Some(40), Some(200)];
+        let mut grid: Vec<(u64, Option<u64>, Option<u64>, Option<u64>, Option<u32>, bool)> = vec![];
+        for o in &ovs {
+            for c in &clocks {
+                for other in [None, Some(0u64), Some(1000)] {
+                    for i in &incs {
+                        for m in &mtgs {
+                            for white in [true, false] {
+                                grid.push((*o, *c, other, *i, *m, white));
+                            }
+                        }
+                    }
+                }
+            }
+        }
+        run.exhaustive_part("overhead_with_any_clock", RULE, grid, |(o, mine, other, inc, mtg, white): &(u64, Option<u64>, Option<u64>, Option<u64>, Option<u32>, bool), st: &mut Stats| {
+            st.eval();
+            if mine.map_or(true, |c| c < *o) {
+                st.nontrivial(&(*o, *mine, *other, *inc, *mtg, *white));
+                st.class("clock_below_the_overhead_or_missing");
+            }
+            let mut p = crate::refchess::Pos::start();
+            p.white_to_move = *white;
+            let game = crate::adapter::to_game(&p);
+            let ms = |v: &Option<u64>| v.map(Duration::from_millis);
+            let cl = if *white {
+                Clocks { white_clock: ms(mine), black_clock: ms(other), white_increment: ms(inc), black_increment: None, moves_to_go: *mtg }
+            } else {
+                Clocks { white_clock: ms(other), black_clock: ms(mine), white_increment: None, black_increment: ms(inc), moves_to_go: *mtg }
+            };
+            let options = EngineOptions { move_overhead: *o as usize, ..EngineOptions::default() };
+            catch(|| {
+                let _ = TimeStrategy::new(&game, &TimeControl::Clocks(cl), &options);
+            })
+            .map_err(|pm| Fail::new(&format!("option:time_control_panic:{}", panic_signature(&pm)), format!("Move Overhead {o} with clock {mine:?} (other side {other:?}), increment {inc:?}, movestogo {mtg:?}, {} to move: setting up the time control panicked: {pm}", if *white { "White" } else { "Black" })))
+        });
+    }
     run.extra.insert("advertised_spin_options".into(), json!(spins.iter().map(|s| json!({"name": s.name, "default": s.default, "min": s.min, "max": s.max})).collect::<Vec<_>>()));
     let cases = tier.pick(112, 3_000);
     run.watchdog_secs = Some(600);
